@@ -35,6 +35,8 @@ pub struct Scenario {
     pub empty_fill_every: usize,
     /// which SourceError flavour an injected read failure carries (gen::source_error)
     pub err_flavour: usize,
+    /// (read index, milliseconds): the source stalls before that read in the multi-thread run
+    pub stall: Option<(usize, u64)>,
 }
 
 impl Scenario {
@@ -45,7 +47,7 @@ impl Scenario {
             "pcm_hash": format!("{:016x}", prng::hash_i32s(&self.audio.samples)),
             "block": self.block, "frames": self.audio.frames().div_ceil(self.block.max(1)),
             "workers": self.workers, "env_FLACENC_WORKERS": self.env, "policy": format!("{:?}", self.policy),
-            "faults": format!("{:?}", self.faults), "fill": format!("{:?}", self.mode), "config": gen::describe_config(&self.cfg), "short_read_every": self.short_reads, "bare_eof": self.bare_eof, "empty_fill_every": self.empty_fill_every, "read_error_flavour": self.err_flavour % gen::ERR_FLAVOURS,
+            "faults": format!("{:?}", self.faults), "fill": format!("{:?}", self.mode), "config": gen::describe_config(&self.cfg), "short_read_every": self.short_reads, "bare_eof": self.bare_eof, "empty_fill_every": self.empty_fill_every, "read_error_flavour": self.err_flavour % gen::ERR_FLAVOURS, "stall_before_read_ms": format!("{:?}", self.stall),
         })
     }
 }
@@ -110,6 +112,7 @@ fn gen_c05_long(seed: u64, idx: u64) -> Scenario {
         bare_eof: false,
         empty_fill_every: 0,
         err_flavour: 0,
+        stall: None,
     }
 }
 
@@ -139,6 +142,7 @@ fn gen_c05_big(seed: u64, idx: u64) -> Scenario {
         bare_eof: false,
         empty_fill_every: 0,
         err_flavour: 0,
+        stall: None,
     }
 }
 
@@ -181,6 +185,7 @@ fn gen_c05_manyworkers(seed: u64, idx: u64) -> Scenario {
         bare_eof: false,
         empty_fill_every: 0,
         err_flavour: 0,
+        stall: None,
     }
 }
 
@@ -237,6 +242,7 @@ pub fn gen_c05(seed: u64, sub: &str, idx: u64) -> Scenario {
         // one scheduled scenario in eight reads from a chain of inner sources
         empty_fill_every: if sub == "sched" && idx % 8 == 6 { 2 + (idx as usize / 8) % 3 } else { 0 },
         err_flavour: 0,
+        stall: None,
     }
 }
 
@@ -323,6 +329,11 @@ pub fn gen_c06(seed: u64, tier: Tier, sub: &str, idx: u64) -> Scenario {
             let w = *rng.pick(&[1usize, 2, 3, 4, 8]);
             (f, vec![Fault::RaggedAt { read: k, extra: 1 + rng.usize_below(2) }], w, rng.usize_below(POLICIES.len()), format!("ragged F={f} k={k} W={w}"))
         }
+        "stall" => {
+            let f = 6 + rng.usize_below(6);
+            let w = *rng.pick(&[1usize, 2, 4]);
+            (f, vec![], w, 0, format!("stall F={f} W={w}"))
+        }
         _ => {
             // fault-free
             let f = rng.usize_below(13);
@@ -360,6 +371,10 @@ pub fn gen_c06(seed: u64, tier: Tier, sub: &str, idx: u64) -> Scenario {
         // the grid of the enumeration has 3 (policy) x 3 (W) x ... entries per fault position;
         // idx / 3 walks through the flavours independently of the policy index
         err_flavour: (idx / 3 + idx / 11) as usize,
+        // 'stall': a fault-free source (a capture device, a pipe whose writer pauses) that delivers
+        // nothing for seconds in the middle of the stream; helper threads that give up waiting
+        // leave the blocks behind the pause without an encoder
+        stall: if sub == "stall" { Some((frames / 2, [6500u64, 2500, 11000, 16000, 31000, 4500, 61000, 8000][(idx % 8) as usize])) } else { None },
     }
 }
 
@@ -381,6 +396,9 @@ fn run_encode(cfg: &config::Encoder, sc: &Scenario, multithread: bool) -> Result
     src.bare_eof = sc.bare_eof;
     src.empty_fill_every = sc.empty_fill_every;
     src.err_flavour = sc.err_flavour;
+    if multithread {
+        src.stall = sc.stall;
+    }
     let stream = enc::encode_stream(&v, src, sc.block)?;
     enc::to_bytes(&stream).map_err(|e| EncErr::Api("Serialise", format!("{e:?}").chars().take(200).collect()))
 }
@@ -644,6 +662,9 @@ pub fn run_c06(ctx: &Ctx) -> i32 {
     supervise_sub(ctx, "combo", ctx.tier.pick(480, 16_000), &agg);
     supervise_sub(ctx, "faultfree", ctx.tier.pick(480, 16_000), &agg);
     supervise_sub(ctx, "refused", ctx.tier.pick(54, 900), &agg);
+    if !cfg!(miri) {
+        supervise_sub(ctx, "stall", ctx.tier.pick(3, 8), &agg);
+    }
     supervise_sub(ctx, "ragged", ctx.tier.pick(240, 8000), &agg);
     supervise_sub(ctx, "env", ctx.tier.pick(136, 2720), &agg);
     let out = std::mem::take(&mut agg.lock().unwrap().out);
